@@ -498,6 +498,61 @@ Proof.
   exact (lattice_end_to_end_linked_conv surf teqb tr_surf inv sense H1 H2 cell vecs bs spec).
 Qed.
 
+(* round 4: the forward statement with (i) the provenance in the own-universe branch,
+   c_orig = prov [key; element] (what C09 reads), and (ii) "no other returned cell is true at
+   p": others_false = under C05's universe_partition, every other returned cell whose
+   descent has a value at p is FALSE at p (C05's Verdict), for the descent located here *)
+Theorem C06_lattice_unique_owner_linked :
+  forall (surf : Type) (teqb : list R -> list R -> bool) (tr_surf : list R -> surf -> surf)
+         (inv : list R -> @vec R -> @vec R) (sense : surf -> @vec R -> bool),
+  (forall t o p, sense (tr_surf t o) p = sense o (inv t p)) ->
+  (forall a b, teqb a b = true -> is_nil a = is_nil b /\ forall p, inv a p = inv b p) ->
+  forall (cell : @lat_cell R) (vecs : list (@vec R)) (bs : bounds) (spec : list Z),
+  lc_fill cell = FSpec bs spec -> bs <> [] -> wf_bounds bs ->
+  Z.of_nat (List.length spec) = size bs ->
+  (List.length vecs <= List.length bs)%nat -> Forall trivial_range (skipn (List.length vecs) bs) ->
+  cell_shape_ok cell ->
+  exists elems, develop_lattice_with RS (Ok vecs) cell = Ok elems /\
+  forall (fuel cf : nat) (s0 s1 s2 : M5.state (list R) surf) (latkey : Z) (lcl : M5.cell (list R))
+         (keys : list Z) (du : list (Z * list Z)) (ifd ifg : bool) (key : Z)
+         (kcl : M5.cell (list R)) (U : Z) (ks : list Z),
+  Forall (fun e => inverse_of inv (ne_trnsf e) /\ inverse_of inv (ne_filltr e)) elems ->
+  P5.Inv (list R) surf (@vec R) (@is_nil R) inv sense s0 ->
+  M5.dget latkey (M5.s_cells s0) = Some lcl ->
+  develop_state surf teqb tr_surf fuel latkey elems s0 = M5.Ok (keys, s1) ->
+  M5.dget key (M5.s_cells s1) = Some kcl -> M5.c_fill kcl = Some U ->
+  (forall k, In k keys -> In k (M5.du_get U du)) ->
+  (forall c cl, M5.dget c (M5.s_cells s1) = Some cl -> M5.c_orig cl = []) ->
+  (forall u c, In c (M5.du_get u du) -> exists cl, M5.dget c (M5.s_cells s1) = Some cl) ->
+  M5.pot_fill (list R) surf (@is_nil R) teqb tr_surf fuel cf du ifd ifg key s1 = M5.Ok (ks, s2) ->
+  forall idx, in_ranges idx bs ->
+    let t := lattice_point vecs idx in
+    let u := nth (Z.to_nat (flat_index bs idx)) spec 0%Z in
+    u <> 0%Z ->
+    forall p, let p' := S5.frame (list R) (@vec R) (@is_nil R) inv kcl p in
+    S5.Den (list R) surf (@vec R) sense s1 p (M5.c_geom kcl) true ->
+    S5.Den (list R) surf (@vec R) sense s0 (vdiff RS p' t) (M5.TRef latkey) true ->
+    (u = lc_universe cell ->
+       exists k ke ncl, In k ks /\ In ke keys /\ M5.dget k (M5.s_cells s2) = Some ncl /\
+         S5.Den (list R) surf (@vec R) sense s2 p (M5.TRef k) true /\ M5.c_fill ncl = None /\
+         M5.c_mat ncl = M5.c_mat lcl /\ M5.c_rho ncl = M5.c_rho lcl /\
+         M5.c_orig ncl = S5.prov [key; ke] /\
+         others_false surf inv sense s1 s2 du key ks p [key; ke]) /\
+    (u <> lc_universe cell ->
+       forall q c ch, In c (M5.du_get u du) -> p' = vadd RS (placement cell q) t ->
+       S5.Located (list R) surf (@vec R) (@is_nil R) inv sense s1 du c q ch ->
+       exists k ke ncl lfl, In k ks /\ In ke keys /\
+         M5.dget k (M5.s_cells s2) = Some ncl /\
+         S5.Den (list R) surf (@vec R) sense s2 p (M5.TRef k) true /\
+         M5.dget (last ch 0%Z) (M5.s_cells s1) = Some lfl /\
+         M5.c_fill ncl = None /\ M5.c_mat ncl = M5.c_mat lfl /\ M5.c_rho ncl = M5.c_rho lfl /\
+         M5.c_orig ncl = S5.prov (key :: ke :: ch) /\
+         others_false surf inv sense s1 s2 du key ks p (key :: ke :: ch)).
+Proof.
+  intros surf teqb tr_surf inv sense H1 H2 cell vecs bs spec.
+  exact (lattice_unique_owner_linked surf teqb tr_surf inv sense H1 H2 cell vecs bs spec).
+Qed.
+
 (* the hypothesis [inverse_of] is satisfiable: p -> B (p - O) is the inverse of C06's point
    map for every orthogonal [O; B]; translations are orthogonal and composing with the
    element translation keeps the matrix, so every transformation develop_lattice produces
@@ -704,7 +759,7 @@ Print Assumptions C06_family_text.
 
 (* linked with C05: both directions, satisfiability of the inverse law *)
 Theorem C06_family_linked :
-  ltac:(let t := type of (conj C06_lattice_end_to_end_linked (conj C06_lattice_end_to_end_conv_linked C06_link_inverse_satisfiable)) in exact t).
-Proof. exact (conj C06_lattice_end_to_end_linked (conj C06_lattice_end_to_end_conv_linked C06_link_inverse_satisfiable)). Qed.
+  ltac:(let t := type of (conj C06_lattice_end_to_end_linked (conj C06_lattice_end_to_end_conv_linked (conj C06_link_inverse_satisfiable C06_lattice_unique_owner_linked))) in exact t).
+Proof. exact (conj C06_lattice_end_to_end_linked (conj C06_lattice_end_to_end_conv_linked (conj C06_link_inverse_satisfiable C06_lattice_unique_owner_linked))). Qed.
 Print Assumptions C06_family_linked.
 
